@@ -2,7 +2,9 @@
 //! operator.  approve / approve_for_all / revoke / transfer / transfer_from / burn / burn_from
 //! on the three flavours, issued by owner, approved account, operator, former owner, former
 //! approved account and strangers, each with a drawn authorisation subset, with the ledger
-//! moved onto and just past every live_until.
+//! moved onto and just past every live_until.  The address universe also contains "special" addresses (the token
+//! contract's own address, a classic account, a contract that authorises by being the invoker) in every party
+//! position of every call kind; equal parties and boundary argument values have their own directed histories.
 #[path = "../common/nft.rs"]
 mod nft;
 use nft::*;
@@ -38,24 +40,26 @@ fn one_step(w: &mut World, out: &mut Out, rng: &mut Rng, g: &mut Gen, p: &Profil
     }
 }
 
-fn random_trace(out: &mut Out, rng: &mut Rng, fl: Fl, nsteps: usize, outside: bool) {
-    let naddr = 4 + rng.below(2) as usize;
+fn random_trace(out: &mut Out, rng: &mut Rng, fl: Fl, nsteps: usize, outside: bool, special: bool) {
+    // every third history: three plain accounts + the contract's own address, a calling contract and a classic account
+    let naddr = if special { 3 } else { 4 + rng.below(2) as usize };
     let now0 = *rng.pick(&[0u32, 1, 5, 1000, 100_000]);
     let min_ttl = *rng.pick(&[1u32, 1, 16]);
     let max_ttl = *rng.pick(&[30u32, 1000, 6_312_000]);
     let mode = if outside { 3 } else { rng.below(3) as u32 };
     let mut w = World::new(fl, naddr, now0, min_ttl, max_ttl, None);
+    if special { w.add_special(); }
     let p = profile(fl, mode);
     let mut g = Gen { lus: std::vec![] };
-    // a few tokens for two or three owners
-    for k in 0..(2 + rng.below(3) as usize) {
-        let to = k % 3;
+    // a few tokens for two or three owners (and for each special address)
+    for k in 0..(2 + rng.below(3) as usize + if special { 3 } else { 0 }) {
+        let to = if special { k % 6 } else { k % 3 };
         let c = match fl { Fl::Cons => Call::BatchMint(to, 1 + rng.below(3) as u32), _ => if mode == 1 { Call::MintId(to, EXPLICIT_BASE + k as u32) } else { Call::MintSeq(to) } };
         w.step(out, rng, &c);
     }
     for _ in 0..nsteps { one_step(&mut w, out, rng, &mut g, &p); }
-    out.label(if outside { "family/outside-quantifier" } else { "family/random" });
-    w.flush(out, if outside { "outside-quantifier" } else { "random" });
+    out.label(if outside { "family/outside-quantifier" } else if special { "family/random-special-addresses" } else { "family/random" });
+    w.flush(out, if outside { "outside-quantifier" } else if special { "random-special" } else { "random" });
 }
 
 fn scenario(out: &mut Out, rng: &mut Rng, fl: Fl, max_ttl: u32, desc: &str, calls: &[Call]) {
@@ -169,6 +173,169 @@ fn roles(out: &mut Out, rng: &mut Rng) {
     }
 }
 
+/// Special members of the address universe in EVERY party position of EVERY call kind (label
+/// `<flavour>/special/<situation>/<kind>/<outcome>`): the NFT contract's own address and a classic account (nobody can
+/// sign for them: whatever they own, are approved for or operate never moves), and a contract that authorises by
+/// being the invoker (its calls go THROUGH it; a signature-less direct call in its name is refused).
+fn special_parties(out: &mut Out, rng: &mut Rng) {
+    for fl in [Fl::Base, Fl::Enum, Fl::Cons] {
+        // (who may sign does not depend on the lifetime of temporary entries: one host configuration per flavour)
+        for min_ttl in [if fl == Fl::Enum { 16u32 } else { 1 }] {
+            let mut w = World::new(fl, 3, 10, min_ttl, 1000, None);
+            let sp = w.add_special();
+            let (me, px, acc) = (sp.me, sp.proxy, sp.account);
+            // ids 0..3 -> account 0, 4..6 -> the contract itself, 7..9 -> the calling contract, 10..11 -> the classic
+            // account, 12 -> account 1
+            for (to, k) in [(0usize, 4u32), (me, 3), (px, 3), (acc, 2), (1, 1)] {
+                match fl { Fl::Cons => { w.step(out, rng, &Call::BatchMint(to, k)); } _ => { for _ in 0..k { w.step(out, rng, &Call::MintSeq(to)); } } }
+            }
+            let l = |w: &mut World, out: &mut Out, rng: &mut Rng, situation: &str, c: Call| {
+                let (ok, _) = w.step(out, rng, &c);
+                out.label(&format!("{}/special/{}/{}/{}", fl.tag(), situation, c.kind(), if ok { "ok" } else { "fail" }));
+            };
+            // ---- an owner nobody can sign for: the contract's own address / a classic account
+            for (who, name, id) in [(me, "own-address", 4u32), (acc, "account-address", 10u32)] {
+                let everybody: Vec<usize> = std::vec![0, 1, 2, px];
+                for (auths, sit) in [(std::vec![], "owner-nobody-signs"), (std::vec![2usize], "owner-recipient-signs"), (everybody, "owner-everybody-else-signs")] {
+                    let s = format!("{}-{}", name, sit);
+                    l(&mut w, out, rng, &s, Call::Transfer { auths: auths.clone(), from: who, to: 2, id });
+                    l(&mut w, out, rng, &s, Call::TransferFrom { auths: auths.clone(), spender: who, from: who, to: 2, id });
+                    l(&mut w, out, rng, &s, Call::TransferFrom { auths: auths.clone(), spender: 2, from: who, to: 2, id });
+                    l(&mut w, out, rng, &s, Call::Burn { auths: auths.clone(), from: who, id: id + 1 });
+                    l(&mut w, out, rng, &s, Call::BurnFrom { auths: auths.clone(), spender: who, from: who, id: id + 1 });
+                    l(&mut w, out, rng, &s, Call::BurnFrom { auths: auths.clone(), spender: 2, from: who, id: id + 1 });
+                    l(&mut w, out, rng, &s, Call::Approve { auths: auths.clone(), approver: who, approved: 2, id, live_until: 40 });
+                    l(&mut w, out, rng, &s, Call::ApproveForAll { auths: auths.clone(), owner: who, operator: 2, live_until: 40 });
+                }
+            }
+            // ---- the same addresses as approved account, as operator and as recipient of somebody else's token
+            for (who, name) in [(me, "own-address"), (acc, "account-address")] {
+                l(&mut w, out, rng, &format!("{}-becomes-approved", name), ap(0, who, 0, 40));
+                for (auths, sit) in [(std::vec![], "is-approved-nobody-signs"), (std::vec![0usize], "is-approved-owner-signs")] {
+                    let s = format!("{}-{}", name, sit);
+                    l(&mut w, out, rng, &s, Call::TransferFrom { auths: auths.clone(), spender: who, from: 0, to: 2, id: 0 });
+                    l(&mut w, out, rng, &s, Call::BurnFrom { auths: auths.clone(), spender: who, from: 0, id: 0 });
+                    l(&mut w, out, rng, &s, Call::Approve { auths: auths.clone(), approver: who, approved: 2, id: 0, live_until: 40 });
+                }
+                l(&mut w, out, rng, &format!("{}-becomes-operator", name), apa(0, who, 40));
+                for (auths, sit) in [(std::vec![], "is-operator-nobody-signs"), (std::vec![0usize], "is-operator-owner-signs")] {
+                    let s = format!("{}-{}", name, sit);
+                    l(&mut w, out, rng, &s, Call::TransferFrom { auths: auths.clone(), spender: who, from: 0, to: 2, id: 1 });
+                    l(&mut w, out, rng, &s, Call::BurnFrom { auths: auths.clone(), spender: who, from: 0, id: 1 });
+                    l(&mut w, out, rng, &s, Call::Approve { auths: auths.clone(), approver: who, approved: 2, id: 1, live_until: 40 });
+                }
+                w.step(out, rng, &apa(0, who, 0));
+            }
+            l(&mut w, out, rng, "own-address-receives", tr(0, me, 1));
+            l(&mut w, out, rng, "own-address-received-former-owner-signs", tr(0, 0, 1));
+            l(&mut w, out, rng, "own-address-received-former-owner-signs", Call::Transfer { auths: std::vec![0], from: me, to: 0, id: 1 });
+            l(&mut w, out, rng, "own-address-received-former-owner-signs", Call::TransferFrom { auths: std::vec![0], spender: 0, from: me, to: 0, id: 1 });
+            l(&mut w, out, rng, "own-address-received-former-owner-signs", Call::BurnFrom { auths: std::vec![0], spender: 0, from: me, id: 1 });
+            // ---- a contract as a party: it authorises the calls it makes itself and nothing else
+            l(&mut w, out, rng, "contract-owner-not-invoking", Call::Transfer { auths: std::vec![], from: px, to: 2, id: 7 });
+            l(&mut w, out, rng, "contract-owner-not-invoking", Call::TransferFrom { auths: std::vec![2], spender: 2, from: px, to: 2, id: 7 });
+            l(&mut w, out, rng, "contract-owner-not-invoking", Call::Burn { auths: std::vec![], from: px, id: 7 });
+            l(&mut w, out, rng, "contract-owner-not-invoking", Call::BurnFrom { auths: std::vec![0, 1, 2], spender: px, from: px, id: 7 });
+            l(&mut w, out, rng, "contract-owner-not-invoking", Call::Approve { auths: std::vec![], approver: px, approved: 2, id: 7, live_until: 40 });
+            l(&mut w, out, rng, "contract-owner-not-invoking", Call::ApproveForAll { auths: std::vec![2], owner: px, operator: 2, live_until: 40 });
+            l(&mut w, out, rng, "contract-owner-invoking", tr(px, 2, 7));
+            l(&mut w, out, rng, "contract-owner-invoking", ap(px, 2, 8, 40));
+            l(&mut w, out, rng, "approved-by-invoking-contract", trf(2, px, 2, 8));
+            l(&mut w, out, rng, "contract-owner-invoking", bu(px, 9));
+            l(&mut w, out, rng, "contract-owner-invoking", apa(px, 1, 40));
+            l(&mut w, out, rng, "invoking-contract-not-entitled", trf(px, 1, px, 12));
+            l(&mut w, out, rng, "invoking-contract-not-entitled", buf(px, 1, 12));
+            l(&mut w, out, rng, "invoking-contract-not-entitled", ap(px, 2, 12, 40));
+            l(&mut w, out, rng, "invoking-contract-not-entitled", Call::Transfer { auths: std::vec![px], from: 1, to: px, id: 12 });
+            l(&mut w, out, rng, "invoking-contract-not-entitled", Call::ApproveForAll { auths: std::vec![px], owner: 1, operator: px, live_until: 40 });
+            l(&mut w, out, rng, "invoking-contract-becomes-approved", ap(0, px, 2, 40));
+            l(&mut w, out, rng, "invoking-contract-is-approved", trf(px, 0, px, 2));
+            l(&mut w, out, rng, "invoking-contract-becomes-operator", apa(0, px, 40));
+            l(&mut w, out, rng, "invoking-contract-is-operator", ap(px, 1, 0, 40));
+            l(&mut w, out, rng, "invoking-contract-is-operator", buf(px, 0, 3));
+            l(&mut w, out, rng, "owner-signs-inside-contract-invocation", Call::Transfer { auths: std::vec![1, px], from: 1, to: px, id: 12 });
+            w.flush(out, &format!("special-parties/minttl{}", min_ttl));
+        }
+    }
+}
+
+/// Equal parties (`from == to`, `spender == from == to`, `approved == owner`, `operator == owner`, `approver == approved`)
+/// and boundary argument values (token id 0 / the largest id, live_until 0 / now-1 / now / the host maximum / u32::MAX)
+/// for all call kinds; labels `<flavour>/alias/<situation>/<kind>/<outcome>` and `<flavour>/bound/...`.
+fn aliasing_and_bounds(out: &mut Out, rng: &mut Rng) {
+    for fl in [Fl::Base, Fl::Enum, Fl::Cons] {
+        for min_ttl in [1u32, 16] {
+            let mut w = World::new(fl, 5, 10, min_ttl, 1000, None);
+            match fl { Fl::Cons => { w.step(out, rng, &Call::BatchMint(0, 6)); w.step(out, rng, &Call::BatchMint(1, 1)); }
+                       _ => { for _ in 0..6 { w.step(out, rng, &Call::MintSeq(0)); } w.step(out, rng, &Call::MintSeq(1)); } }
+            let l = |w: &mut World, out: &mut Out, rng: &mut Rng, situation: &str, c: Call| {
+                let (ok, _) = w.step(out, rng, &c);
+                out.label(&format!("{}/alias/{}/{}/{}", fl.tag(), situation, c.kind(), if ok { "ok" } else { "fail" }));
+            };
+            for id in [0u32, 1, 2, 3] { w.step(out, rng, &ap(0, 3, id, 40)); }
+            l(&mut w, out, rng, "owner-transfers-to-itself", tr(0, 0, 0));
+            l(&mut w, out, rng, "approved-before-self-transfer", trf(3, 0, 3, 0));
+            l(&mut w, out, rng, "owner-transfers-to-itself", trf(0, 0, 0, 1));
+            l(&mut w, out, rng, "approved-before-self-transfer", buf(3, 0, 1));
+            l(&mut w, out, rng, "approved-moves-owner-to-owner", trf(3, 0, 0, 2));
+            l(&mut w, out, rng, "approved-before-self-transfer", trf(3, 0, 3, 2));
+            l(&mut w, out, rng, "approved-takes-for-itself", trf(3, 0, 3, 3));
+            l(&mut w, out, rng, "new-owner-transfers-to-itself", tr(3, 3, 3));
+            l(&mut w, out, rng, "owner-approves-itself", ap(0, 0, 4, 40));
+            l(&mut w, out, rng, "owner-approved-for-own-token", trf(0, 0, 0, 4));
+            l(&mut w, out, rng, "owner-appoints-itself", apa(0, 0, 40));
+            l(&mut w, out, rng, "owner-its-own-operator", buf(0, 0, 5));
+            l(&mut w, out, rng, "stranger-approves-itself", ap(2, 2, 4, 40));
+            l(&mut w, out, rng, "stranger-appoints-itself-for-others", Call::ApproveForAll { auths: std::vec![2], owner: 0, operator: 2, live_until: 40 });
+            w.step(out, rng, &apa(0, 4, 40));
+            l(&mut w, out, rng, "operator-approves-itself", ap(4, 4, 4, 40));
+            l(&mut w, out, rng, "operator-approved-by-itself", trf(4, 0, 4, 4));
+            l(&mut w, out, rng, "operator-moves-owner-to-owner", trf(4, 0, 0, 0));
+            l(&mut w, out, rng, "spender-signs-twice", Call::TransferFrom { auths: std::vec![4, 4], spender: 4, from: 0, to: 0, id: 0 });
+            l(&mut w, out, rng, "owner-revokes-itself", apa(0, 0, 0));
+            w.flush(out, &format!("aliasing/minttl{}", min_ttl));
+
+            // boundary values of every argument type: ids (0, the largest), live_until (0, now-1, now, host maximum, u32::MAX)
+            let mut w = World::new(fl, 5, 10, min_ttl, 30, None);
+            let top = match fl {
+                Fl::Cons => { w.step(out, rng, &Call::BatchMint(0, 3)); 2u32 }
+                _ => { w.step(out, rng, &Call::MintId(0, 0)); w.step(out, rng, &Call::MintId(0, 1)); w.step(out, rng, &Call::MintId(0, u32::MAX)); u32::MAX }
+            };
+            let l = |w: &mut World, out: &mut Out, rng: &mut Rng, situation: &str, c: Call| {
+                let (ok, _) = w.step(out, rng, &c);
+                out.label(&format!("{}/bound/{}/{}/{}", fl.tag(), situation, c.kind(), if ok { "ok" } else { "fail" }));
+            };
+            for id in [0u32, top] {
+                let t = if id == 0 { "id-zero" } else { "id-largest" };
+                l(&mut w, out, rng, &format!("{}-live-until-zero-nothing-to-revoke", t), ap(0, 3, id, 0));
+                l(&mut w, out, rng, &format!("{}-live-until-past", t), ap(0, 3, id, 9));
+                l(&mut w, out, rng, &format!("{}-live-until-u32-max", t), ap(0, 3, id, u32::MAX));
+                l(&mut w, out, rng, &format!("{}-live-until-beyond-host-maximum", t), ap(0, 3, id, 10 + 30));
+                l(&mut w, out, rng, &format!("{}-nothing-approved", t), trf(3, 0, 3, id));
+                l(&mut w, out, rng, &format!("{}-live-until-host-maximum", t), ap(0, 3, id, 10 + 29));
+                l(&mut w, out, rng, &format!("{}-live-until-now", t), ap(0, 4, id, 10));
+                l(&mut w, out, rng, &format!("{}-replaced-approved", t), trf(3, 0, 3, id));
+                l(&mut w, out, rng, &format!("{}-live-until-now", t), trf(4, 0, 4, id));
+                l(&mut w, out, rng, &format!("{}-back", t), tr(4, 0, id));
+            }
+            l(&mut w, out, rng, "operator-live-until-zero-nothing-to-revoke", apa(0, 3, 0));
+            l(&mut w, out, rng, "operator-live-until-past", apa(0, 3, 9));
+            l(&mut w, out, rng, "operator-live-until-u32-max", apa(0, 3, u32::MAX));
+            l(&mut w, out, rng, "operator-live-until-beyond-host-maximum", apa(0, 3, 10 + 30));
+            l(&mut w, out, rng, "operator-nothing-appointed", buf(3, 0, 1));
+            l(&mut w, out, rng, "operator-live-until-now", apa(0, 3, 10));
+            l(&mut w, out, rng, "operator-live-until-now", trf(3, 0, 3, top));
+            w.step(out, rng, &Call::Advance(1));
+            l(&mut w, out, rng, "operator-live-until-now-one-later", buf(3, 0, 0));
+            let none = w.last.next + 2;          // an id nobody ever held (within the observed range)
+            l(&mut w, out, rng, "unknown-id", tr(0, 1, none));
+            l(&mut w, out, rng, "unknown-id", ap(0, 1, none, 20));
+            l(&mut w, out, rng, "unknown-id", buf(0, 0, none));
+            w.flush(out, &format!("bounds/minttl{}", min_ttl));
+        }
+    }
+}
+
 fn main() {
     let mut out = Out::new("From SC Require Import Lib.Prelude Lib.Int Lib.Host Model.Nft Run.NftCommon Run.C11.\nOpen Scope Z_scope.", "check_all");
     out.per_shard(260);
@@ -177,14 +344,16 @@ fn main() {
     let scale = out.cfg.scale as usize;
     directed(&mut out, &mut rng);
     roles(&mut out, &mut rng);
+    special_parties(&mut out, &mut rng);
+    aliasing_and_bounds(&mut out, &mut rng);
     persistence_scenarios(&mut out, &mut rng);
     let (ntr, nsteps) = if thorough { (600 * scale, 70) } else { (111 * scale, 45) };
     for i in 0..ntr {
         let fl = match i % 3 { 0 => Fl::Base, 1 => Fl::Enum, _ => Fl::Cons };
-        random_trace(&mut out, &mut rng, fl, nsteps, false);
+        random_trace(&mut out, &mut rng, fl, nsteps, false, (i / 3) % 3 == 1);
     }
     // OUTSIDE the property's quantifier (explicit ids colliding with the counter / with existing ids): compared with the
     // model by the diff; the monitor stops judging at the offending mint
-    for i in 0..(if thorough { 60 * scale } else { 8 * scale }) { random_trace(&mut out, &mut rng, if i % 2 == 0 { Fl::Base } else { Fl::Enum }, nsteps, true); }
+    for i in 0..(if thorough { 60 * scale } else { 8 * scale }) { random_trace(&mut out, &mut rng, if i % 2 == 0 { Fl::Base } else { Fl::Enum }, nsteps, true, false); }
     out.finish();
 }
